@@ -207,6 +207,10 @@ namespace link_layer {
 
             if ( type == pdu_type_start )
             {
+                // a start fragment ends the reassembly of a SDU that was not completed
+                receive_size_        = 0;
+                receive_buffer_used_ = 0;
+
                 if ( body_size >= l2cap_header_size )
                 {
                     const std::uint16_t l2cap_size  = bluetoe::details::read_16bit( body.first );
@@ -243,7 +247,7 @@ namespace link_layer {
     {
         const std::size_t copy_size = std::min< std::size_t >( receive_size_, end - begin );
 
-        std::copy( begin, end, &receive_buffer_[ receive_buffer_used_ ] );
+        std::copy( begin, begin + copy_size, &receive_buffer_[ receive_buffer_used_ ] );
         receive_buffer_used_ += copy_size;
         receive_size_ -= copy_size;
     }
@@ -296,7 +300,9 @@ namespace link_layer {
     template < class BufferedRadio, class ReceiveCallbacks, std::size_t MTUSize >
     void ll_l2cap_sdu_buffer< BufferedRadio, ReceiveCallbacks, MTUSize >::free_ll_l2cap_received()
     {
-        if (receive_buffer_used_)
+        // Only a completely reassembled SDU is handed out of the receive buffer. Everything else, like a LL control PDU
+        // that was received in the middle of a fragmented SDU, is handed out of the PDU buffer of the radio.
+        if ( receive_buffer_used_ != 0 && receive_size_ == 0 )
         {
             receive_buffer_used_ = 0;
             receive_size_ = 0;
